@@ -563,11 +563,12 @@ fn fileloads(out: &mut Out, r: &mut Rng, count: u64) {
         // SZX files say at which T-state of its frame the machine was saved
         let flen = if m_file { FRAME_128 } else { FRAME_48 };
         let cycles = if r.chance(1, 2) { 0 } else { r.below(flen as u64 - 2000) as u32 };
+        let fset = r.chance(1, 3);
         let mouse = match r.below(3) { 0 => None, 1 => Some(2u8), _ => Some(0u8) };
         let encs: Vec<(&str, Vec<u8>)> = vec![
             ("sna", if m_file { sna128(&d) } else { sna48(&d) }),
-            ("szx", szx(&d, &SzxOpts { halted, eilast, ay, mouse, cycles, ..Default::default() })),
-            ("szxz", szx(&d, &SzxOpts { compressed: true, shuffle: r.next() | 1, junk_chunks: true, halted, eilast, ay, mouse, cycles, ..Default::default() })),
+            ("szx", szx(&d, &SzxOpts { halted, eilast, ay, mouse, cycles, fset, ..Default::default() })),
+            ("szxz", szx(&d, &SzxOpts { compressed: true, shuffle: r.next() | 1, junk_chunks: true, halted, eilast, ay, mouse, cycles, fset, ..Default::default() })),
         ];
         let ramw_j: Vec<Value> = ramw.iter().map(|(b, o, v)| json!([b, o, v])).collect();
         for (enc, bytes) in encs.iter() {
@@ -625,6 +626,7 @@ fn fileloads(out: &mut Out, r: &mut Rng, count: u64) {
                                     "opts":{"halted":halted && !is_sna,"eilast":eilast && !is_sna,
                                             "ay": if is_sna || ay.is_none() { json!([]) } else { json!([{"cur":ay.unwrap().0,"regs":ay.unwrap().1.to_vec()}]) },
                                             "mouse": if is_sna { -1 } else { mouse.map(|m| m as i32).unwrap_or(-1) },
+                                            "fset": fset && !is_sna,
                                             "audible": audible && !is_sna && ay.is_some(),
                                             "quiet": !audible && !is_sna && ay.is_some()},
                                     "outcome":outcome,"detail":detail,"is_sna":is_sna,"before":before,"ayhist":ayhist});
